@@ -1323,8 +1323,13 @@ func cmdC03Fuzz(a cmdArgs) {
 	defer os.RemoveAll(tmp)
 
 	jobs := make([]c03Job, a.n)
+	seedJobs := c03TermSeedJobs()
 	for i := range jobs {
 		jobs[i] = c03GenJob(r, corpus, i)
+		if i < len(seedJobs) {
+			jobs[i] = seedJobs[i] // hand-written jobs of the terminating class come first, on every seed
+			jobs[i].ID = i
+		}
 		st.add(jobs[i].Entry+":"+jobs[i].Class, fmt.Sprintf("%s %s opts=%s %q", jobs[i].Entry, jobs[i].Class, optNames(jobs[i].Opts), clip(jobs[i].Src+jobs[i].Arg, 60)))
 	}
 	// batches over a few workers
